@@ -9,9 +9,15 @@
   * `forest_roots_step`, `reach_forest_roots`: kept by EVERY request, hence true in every reachable state;
   * `root_is_top`, `top_unique`, `no_self_ancestor`, `parent_exists`: what the invariants mean;
   * the rejections named by the property change nothing and answer 400 / 409;
-    first-time parenting is accepted from 1.14 on.
+    first-time parenting is accepted from 1.14 on;
+  * beyond sequences (`forest_roots_every_schedule`): requests are transaction programs (`prog`, Model/Txn.lean:
+    PUT / DELETE of a provider = the look-up transaction, then the write transaction, as in the code); for ANY
+    number of requests in flight and ANY interleaving of their transactions the invariants hold after every
+    transaction, because the write transactions re-read everything but the row id; run alone the programs are the
+    handlers (`update_program_is_handler`, `delete_program_is_handler`).
 -/
 import Placement.Lemmas.ForestReach
+import Placement.Lemmas.SchedProv
 
 namespace Placement.Props.C09
 open Placement Placement.Hier Placement.Gens
@@ -299,5 +305,38 @@ example : (step exCfg exDb (.rpUpdate 14 14 24 (some (some 13)))).2.status = 200
 /-- at 1.37 the subtree below 2 is detached and becomes a tree of its own -/
 example : ((step exCfg exDb (.rpUpdate 37 12 22 (some none))).1.rps.map (fun r => (r.id, r.parent, r.root)))
       = [(1, none, 1), (2, none, 2), (3, some 2, 2), (4, none, 4)] := by decide
+
+/-! ## Beyond sequences: every schedule -/
+
+/-- **forest_roots_every_schedule.**  Any pool of requests (of any kind), any schedule of their database
+transactions: provider ids stay unique, the parent links a forest, the root pointers correct.  In particular a
+`POST` under a parent that is being moved or deleted, or two moves that would close a loop together, cannot
+break the hierarchy, whatever the interleaving. -/
+theorem forest_roots_every_schedule (cfg : Config) (ops : List (Op R)) (sched : List Nat) {db : DB R}
+    (hI : Ids db.gcore) (hF : Forest db) (hR : Roots db) :
+    let s := (Prog.runSched sched db (ops.map (prog cfg))).1
+    Ids s.gcore ∧ Forest s ∧ Roots s := by
+  have := Sched.pool_hinv cfg ops sched (db := db) ⟨hI, hF, hR⟩
+  exact ⟨this.ids, this.forest, this.roots⟩
+
+/-- run alone, the two-transaction program of PUT /resource_providers/{u} is the handler -/
+theorem update_program_is_handler (cfg : Config) (s : DB R) (mv u n : Nat) (p : Option (Option Nat)) :
+    Prog.runSeq 2 (prog cfg (.rpUpdate mv u n p)) s = ((step cfg s (.rpUpdate mv u n p)).1, some (step cfg s (.rpUpdate mv u n p)).2) :=
+  Sched.pRpUpdate_runSeq s mv u n p
+
+/-- run alone, the two-transaction program of DELETE /resource_providers/{u} is the handler -/
+theorem delete_program_is_handler (cfg : Config) (s : DB R) (u : Nat) :
+    Prog.runSeq 2 (prog cfg (.rpDelete u)) s = ((step cfg s (.rpDelete u)).1, some (step cfg s (.rpDelete u)).2) :=
+  Sched.pRpDelete_runSeq s u
+
+/-- the hypotheses are met by the example state; two moves that would close a loop together (2 under 4, 4 under 3),
+interleaved look-up / look-up / write / write: the second write is refused, the forest stays -/
+example :
+    let ops : List (Op Nat) := [.rpUpdate 39 12 22 (some (some 14)), .rpUpdate 39 14 24 (some (some 13))]
+    let out := Prog.runSched [0, 1, 0, 1] exDb (ops.map (prog exCfg))
+    out.2.map Prog.result? = [some r200, some r400] ∧ Forest out.1 ∧ Roots out.1 := by
+  refine ⟨by decide, ?_, ?_⟩
+  · exact (forest_roots_every_schedule exCfg _ [0, 1, 0, 1] (Gens.ids_of_uniq exDb_uniq) exDb_forest exDb_roots).2.1
+  · exact (forest_roots_every_schedule exCfg _ [0, 1, 0, 1] (Gens.ids_of_uniq exDb_uniq) exDb_forest exDb_roots).2.2
 
 end Placement.Props.C09
